@@ -11,8 +11,10 @@ import Proofs.Props.C12
 1. `drain_phase_ends`: inside one drain phase `rank0_steps_bounded` and `SpeedBound p q D`, `2 q < p`,
    bound the protocol operations of rank 0 by `p * Φ + 2 * D`; fairness makes them unbounded if the
    phase never ends.
-2. `loop_ends`: the measure `Mu = 2 * Psi + [draining]` never grows and drops whenever rank 0 changes
-   between "evolving", "draining" and "past the loop"; both kinds of phases end, so rank 0 leaves its loop.
+2. `collecting_ends`: every blocking receive of the collecting loop is served (fairness only);
+   `loop_ends`: the measure `Mu = 2 * Psi + [draining] + (collecting receives to come)` never grows and
+   drops whenever rank 0 changes between "collecting from k", "evolving", "draining" and "past the loop";
+   all kinds of phases end, so rank 0 leaves its loop.
 3. `reaches_barrier`: past the loop rank 0 sends the exit notifications and enters the barrier (variant
    `ordPc`, helpful rank 0).
 4. `reaches_final`: once rank 0 is in the barrier every notification is out and `Vfin = Φ + 3 * Σ hPot`
@@ -30,9 +32,10 @@ variable {st : Nat → State} {act : Nat → Option Action}
 /-! ## 1. drain phases -/
 
 theorem enabled0_of_draining {s : State} (inv : Inv s) (h : isDraining s.pc0 = true) : enabled s 0 = true := by
-  apply enabled0 inv
+  apply enabled0_nc inv
   · intro e; rw [e] at h; cases h
   · intro e; rw [e] at h; cases h
+  · cases hp : s.pc0 <;> rw [hp] at h <;> first | rfl | cases h
 
 theorem FairExec.seg_steps_bounded (E : FairExec st act) (n len : Nat) :
     (seg act n len).countP r0Proto + Phi (st (n + len)) ≤ Phi (st n) + 2 * (seg act n len).countP helperSend := by
@@ -96,21 +99,42 @@ theorem FairExec.drain_phase_ends (E : FairExec st act) {p q D : Nat} (hsp : Spe
 
 /-! ## 2. the loop of rank 0 -/
 
-/-- rank 0 is evolving (0), draining (1), or past its loop (2) -/
+/-- rank 0 is evolving (0), draining (1), past its loop (2), or before the collecting receive from
+`k` (3 + k) -/
 def loopClass : Pc0 → Nat
   | .evolving => 0
   | .draining _ => 1
+  | .collecting k => 3 + k
   | _ => 2
 
+/-- collecting receives still to come, plus one -/
+def collOrd (R : Nat) : Pc0 → Nat
+  | .collecting k => 1 + (R - k)
+  | _ => 0
+
 /-- never grows; drops whenever `loopClass` changes -/
-def Mu (s : State) : Nat := 2 * Psi s + (if isDraining s.pc0 then 1 else 0)
+def Mu (s : State) : Nat := 2 * Psi s + (if isDraining s.pc0 then 1 else 0) + collOrd s.R s.pc0
 
 theorem afterExit_class (R k : Nat) : loopClass (afterExit R k) = 2 ∧ isDraining (afterExit R k) = false := by
   rcases afterExit_cases R k with ⟨_, e⟩ | ⟨_, e⟩ <;> rw [e] <;> exact ⟨rfl, rfl⟩
 
+theorem afterExit_collOrd (R R' k : Nat) : collOrd R' (afterExit R k) = 0 := by
+  rcases afterExit_cases R k with ⟨_, e⟩ | ⟨_, e⟩ <;> rw [e] <;> rfl
+
+/-- the end of the collecting loop leads to "evolving" or "past the loop" -/
+theorem finishCollect_class (s : State) :
+    isDraining (finishCollect s).pc0 = false ∧ collOrd s.R (finishCollect s).pc0 = 0 ∧
+    (loopClass (finishCollect s).pc0 = 0 ∨ loopClass (finishCollect s).pc0 = 2) := by
+  show isDraining (if _ then Pc0.evolving else afterExit s.R 1) = false ∧
+    collOrd s.R (if _ then Pc0.evolving else afterExit s.R 1) = 0 ∧
+    (loopClass (if _ then Pc0.evolving else afterExit s.R 1) = 0 ∨ loopClass (if _ then Pc0.evolving else afterExit s.R 1) = 2)
+  split
+  · exact ⟨rfl, rfl, Or.inl rfl⟩
+  · exact ⟨(afterExit_class _ _).2, afterExit_collOrd _ _ _, Or.inr (afterExit_class _ _).1⟩
+
 theorem pastLoop_iff (s : State) : pastLoop s = true ↔ loopClass s.pc0 = 2 := by
   unfold pastLoop
-  cases s.pc0 <;> simp [loopClass]
+  cases s.pc0 <;> simp [loopClass] <;> omega
 
 theorem mu_step {s s' : State} {a : Action} (inv : Inv s) (mono : Mono s) (hk : slicePos a = true)
     (h : step s a = some s') : Mu s' ≤ Mu s ∧ (loopClass s'.pc0 ≠ loopClass s.pc0 → Mu s' < Mu s) := by
@@ -122,55 +146,71 @@ theorem mu_step {s s' : State} {a : Action} (inv : Inv s) (mono : Mono s) (hk : 
       have hr : r = 0 := hr
       subst hr
       simp only [isEvolve0, beq_self_eq_true, if_true] at hpsi
-      simp only [Mu, hp, isDraining, loopClass, if_true, Bool.false_eq_true, if_false]
+      simp only [Mu, hp, isDraining, loopClass, collOrd, if_true, Bool.false_eq_true, if_false]
       exact ⟨by omega, fun _ => by omega⟩
     | probeSome r q hp hq =>
       simp only [isEvolve0, Bool.false_eq_true, if_false] at hpsi
-      simp only [Mu, hp, isDraining, loopClass, if_true]
+      simp only [Mu, hp, isDraining, loopClass, collOrd, if_true]
       exact ⟨by omega, fun hne => absurd rfl hne⟩
     | probeLoop r hp hq hb =>
       simp only [isEvolve0, Bool.false_eq_true, if_false] at hpsi
-      simp only [Mu, hp, isDraining, loopClass, if_true, Bool.false_eq_true, if_false]
+      simp only [Mu, hp, isDraining, loopClass, collOrd, if_true, Bool.false_eq_true, if_false]
       exact ⟨by omega, fun _ => by omega⟩
     | probeExit r hp hq hb =>
       simp only [isEvolve0, Bool.false_eq_true, if_false] at hpsi
       have e1 : isDraining (Pc0.draining none) = true := rfl
-      simp only [Mu, hp, (afterExit_class s.R 1).2, e1, if_true, Bool.false_eq_true, if_false]
+      have e3 : collOrd s.R (Pc0.draining none) = 0 := rfl
+      simp only [Mu, hp, (afterExit_class s.R 1).2, e1, e3, afterExit_collOrd, if_true, Bool.false_eq_true, if_false]
       exact ⟨by omega, fun _ => by omega⟩
     | probeSomeF r q hp hq =>
       simp only [isEvolve0, Bool.false_eq_true, if_false] at hpsi
-      simp only [Mu, hp, isDraining, loopClass, Bool.false_eq_true, if_false]
+      simp only [Mu, hp, isDraining, loopClass, collOrd, Bool.false_eq_true, if_false]
       exact ⟨by omega, fun hne => absurd rfl hne⟩
     | probeDone r hp hq =>
       simp only [isEvolve0, Bool.false_eq_true, if_false] at hpsi
-      simp only [Mu, hp, isDraining, loopClass, Bool.false_eq_true, if_false]
+      simp only [Mu, hp, isDraining, loopClass, collOrd, Bool.false_eq_true, if_false]
       exact ⟨by omega, fun hne => absurd rfl hne⟩
+    | collectNext r k a rest hp ht hk' =>
+      simp only [isEvolve0, Bool.false_eq_true, if_false] at hpsi
+      simp only [Mu, hp, isDraining, loopClass, collOrd, Bool.false_eq_true, if_false]
+      exact ⟨by omega, fun _ => by omega⟩
+    | collectLast r k a rest hp ht hk' =>
+      simp only [isEvolve0, Bool.false_eq_true, if_false] at hpsi
+      obtain ⟨c1, c2, c3⟩ := finishCollect_class { s with mbox := rest, table := s.table.set k (some a) }
+      have c2' : collOrd s.R (finishCollect { s with mbox := rest, table := s.table.set k (some a) }).pc0 = 0 := c2
+      have hR' : (finishCollect { s with mbox := rest, table := s.table.set k (some a) }).R = s.R := rfl
+      have hO : collOrd s.R s.pc0 = 1 + (s.R - k) := by rw [hp]; rfl
+      have hD : isDraining s.pc0 = false := by rw [hp]; rfl
+      simp only [Mu, hR', c1, c2', hO, hD, Bool.false_eq_true, if_false]
+      exact ⟨by omega, fun _ => by omega⟩
     | recv r src a rest hp ht =>
       simp only [isEvolve0, Bool.false_eq_true, if_false] at hpsi
-      simp only [Mu, hp, isDraining, loopClass, if_true]
+      simp only [Mu, hp, isDraining, loopClass, collOrd, if_true]
       exact ⟨by omega, fun hne => absurd rfl hne⟩
     | recvF r src a rest hp ht =>
       simp only [isEvolve0, Bool.false_eq_true, if_false] at hpsi
-      simp only [Mu, hp, isDraining, loopClass, Bool.false_eq_true, if_false]
+      simp only [Mu, hp, isDraining, loopClass, collOrd, Bool.false_eq_true, if_false]
       exact ⟨by omega, fun hne => absurd rfl hne⟩
     | sendExit r k hp hk' =>
       simp only [isEvolve0, Bool.false_eq_true, if_false] at hpsi
       have e1 : isDraining (Pc0.sendingExit k) = false := rfl
       have e2 : loopClass (Pc0.sendingExit k) = 2 := rfl
-      simp only [Mu, hp, (afterExit_class s.R (k + 1)).2, (afterExit_class s.R (k + 1)).1, e1, e2,
-        Bool.false_eq_true, if_false]
+      have e3 : collOrd s.R (Pc0.sendingExit k) = 0 := rfl
+      simp only [Mu, hp, (afterExit_class s.R (k + 1)).2, (afterExit_class s.R (k + 1)).1, e1, e2, e3,
+        afterExit_collOrd, Bool.false_eq_true, if_false]
       exact ⟨by omega, fun hne => absurd rfl hne⟩
     | enter r hp =>
       simp only [isEvolve0, Bool.false_eq_true, if_false] at hpsi
-      simp only [Mu, hp, isDraining, loopClass, Bool.false_eq_true, if_false]
+      simp only [Mu, hp, isDraining, loopClass, collOrd, Bool.false_eq_true, if_false]
       exact ⟨by omega, fun hne => absurd rfl hne⟩
     | leave r hp ha =>
       simp only [isEvolve0, Bool.false_eq_true, if_false] at hpsi
-      simp only [Mu, hp, isDraining, loopClass, Bool.false_eq_true, if_false]
+      simp only [Mu, hp, isDraining, loopClass, collOrd, Bool.false_eq_true, if_false]
       exact ⟨by omega, fun hne => absurd rfl hne⟩
   · have e := (stepH_frame0 hH).2.1
+    have eR := (stepH_frame0 hH).2.2.1
     rw [(helper_flags h0).2] at hpsi
-    simp only [Mu, e, Bool.false_eq_true, if_false] at hpsi ⊢
+    simp only [Mu, e, eR, Bool.false_eq_true, if_false] at hpsi ⊢
     exact ⟨by omega, fun hne => absurd rfl hne⟩
 
 /-- `Mu` along an execution: never grows … -/
@@ -210,9 +250,10 @@ theorem FairExec.evolving_ends (E : FairExec st act) (n : Nat) (hd : (st n).pc0 
     intro h
     exact hne ⟨m, hm, h⟩
   have hen : enabled (st n) 0 = true := by
-    apply enabled0 (E.inv n)
+    apply enabled0_nc (E.inv n)
     · rw [hd]; intro e; cases e
     · rw [hd]; intro e; cases e
+    · rw [hd]; rfl
   obtain ⟨m, hm, a, ha, har, hat⟩ := E.fair 0 n hen
   have hs := E.exec.of_some ha
   have hpc := hall m hm
@@ -223,6 +264,89 @@ theorem FairExec.evolving_ends (E : FairExec st act) (n : Nat) (hd : (st n).pc0 
       | (simp [isTick] at hat; done)
       | (rw [hpc] at *; simp_all; done)
       | (simp at hpc'; done)
+  · omega
+
+/-- after a protocol operation of helper `r` it is no longer before its first `_send_updated_age()` -/
+theorem stepH_not_sendFirst {s s' : State} {a : Action} {r : Nat} (hlen : r < s.pcH.length) (h : StepHC s r a s')
+    (ht : isTick a = false) : pcOf s' r ≠ .sendFirst := by
+  have hset : ∀ p, (s.pcH.set r p).getD r .done = p := by
+    intro p; rw [pcOf_set s r r p hlen]; simp
+  cases h with
+  | tick r' hp => simp [isTick] at ht
+  | evolve r' k hp => show (s.pcH.set r _).getD r .done ≠ _; rw [hset]; intro e; cases e
+  | send r' hp => show (s.pcH.set r _).getD r .done ≠ _; rw [hset]; intro e; cases e
+  | probeYes r' hp hq => show (s.pcH.set r _).getD r .done ≠ _; rw [hset]; intro e; cases e
+  | probeNo r' hp hq => show (s.pcH.set r _).getD r .done ≠ _; rw [hset]; intro e; cases e
+  | recv r' hp hq => show (s.pcH.set r _).getD r .done ≠ _; rw [hset]; intro e; cases e
+  | enter r' hp => show (s.pcH.set r _).getD r .done ≠ _; rw [hset]; intro e; cases e
+  | leave r' hp ha => show (s.pcH.set r _).getD r .done ≠ _; rw [hset]; intro e; cases e
+
+/-- **every collecting receive of rank 0 is served** (fairness): helper `k` is at `sendFirst`, where it
+can always move, or one of its messages already waits; once a message of `k` waits rank 0 can move, and
+its next protocol operation is the receive -/
+theorem FairExec.collecting_ends (E : FairExec st act) (n k : Nat) (hd : (st n).pc0 = .collecting k) :
+    ∃ m, n ≤ m ∧ (st m).pc0 ≠ .collecting k := by
+  apply Classical.byContradiction
+  intro hne
+  have hall : ∀ m, n ≤ m → (st m).pc0 = .collecting k := by
+    intro m hm
+    apply Classical.byContradiction
+    intro h
+    exact hne ⟨m, hm, h⟩
+  -- a message of `k` waits from some point on
+  have h1 : ∃ n1, n ≤ n1 ∧ (takeFrom k (st n1).mbox).isSome = true := by
+    obtain ⟨hk0, hkR⟩ := (E.inv n).collK k hd
+    rcases (E.inv n).collWait k hd k (Nat.le_refl _) hkR with hs | hs
+    · have hen : enabled (st n) k = true :=
+        enabledH (E.inv n) hk0 hkR (by rw [hs]; intro e; cases e) (by rw [hs]; intro e; cases e)
+      obtain ⟨m, hm, a, ha, har, hat⟩ := E.fair k n hen
+      have hstep := E.exec.of_some ha
+      refine ⟨m + 1, by omega, ?_⟩
+      have hpc' := hall (m + 1) (by omega)
+      obtain ⟨_, hkR'⟩ := (E.inv (m + 1)).collK k hpc'
+      rcases (E.inv (m + 1)).collWait k hpc' k (Nat.le_refl _) hkR' with h2 | h2
+      · exfalso
+        rcases step_cases hstep with ⟨hr0, _⟩ | ⟨_, hR, hH⟩
+        · omega
+        · rw [har] at hH hR
+          exact stepH_not_sendFirst (by rw [(E.inv m).lenPc]; exact hR) hH hat h2
+      · exact h2
+    · exact ⟨n, Nat.le_refl _, hs⟩
+  obtain ⟨n1, hn1, htk⟩ := h1
+  have hen : enabled (st n1) 0 = true := by
+    apply enabled0 (E.inv n1)
+    · rw [hall n1 hn1]; intro e; cases e
+    · rw [hall n1 hn1]; intro e; cases e
+    · intro k' e
+      rw [hall n1 hn1] at e
+      injection e with e; subst e; exact htk
+  obtain ⟨m, hm, a, ha, har, hat⟩ := E.fair 0 n1 hen
+  have hs := E.exec.of_some ha
+  have hpc := hall m (by omega)
+  have hpc' := hall (m + 1) (by omega)
+  have hRpos := (E.inv m).Rpos
+  rcases step_cases hs with ⟨_, h0⟩ | ⟨h0, _, _⟩
+  · generalize st (m + 1) = s' at *
+    cases h0 with
+    | tick r hq => simp [isTick] at hat
+    | collectNext r k' a' rest hq ht hk' =>
+      rw [hpc] at hq; injection hq with hq; subst hq
+      have : Pc0.collecting (k + 1) = Pc0.collecting k := hpc'
+      injection this with this; omega
+    | collectLast r k' a' rest hq ht hk' =>
+      have := (finishCollect_facts { st m with mbox := rest, table := (st m).table.set k' (some a') } hRpos).2.2.1
+      rw [hpc'] at this; cases this
+    | evolve r k' hq => rw [hpc] at hq; cases hq
+    | probeSome r q hq _ => rw [hpc] at hq; cases hq
+    | probeLoop r hq _ _ => rw [hpc] at hq; cases hq
+    | probeExit r hq _ _ => rw [hpc] at hq; cases hq
+    | probeSomeF r q hq _ => rw [hpc] at hq; cases hq
+    | probeDone r hq _ => rw [hpc] at hq; cases hq
+    | recv r src a' rest hq _ => rw [hpc] at hq; cases hq
+    | recvF r src a' rest hq _ => rw [hpc] at hq; cases hq
+    | sendExit r k' hq _ => rw [hpc] at hq; cases hq
+    | enter r hq => rw [hpc] at hq; cases hq
+    | leave r hq _ => rw [hpc] at hq; cases hq
   · omega
 
 /-- **rank 0 leaves its loop** -/
@@ -248,7 +372,15 @@ theorem FairExec.loop_ends (E : FairExec st act) {p q D : Nat} (hsp : SpeedBound
       have : loopClass (st (n + (m - n))).pc0 ≠ loopClass (st n).pc0 := by
         rw [show n + (m - n) = m by omega, hp]
         intro e
-        cases hq : (st m).pc0 <;> rw [hq] at e hne <;> simp [loopClass, isDraining] at e hne
+        cases hq : (st m).pc0 <;> rw [hq] at e hne <;> simp [loopClass, isDraining] at e hne <;> omega
+      have := E.mu_drop n (m - n) this
+      omega
+    | collecting k0 =>
+      obtain ⟨m, hm, hne⟩ := E.collecting_ends n k0 hp
+      have : loopClass (st (n + (m - n))).pc0 ≠ loopClass (st n).pc0 := by
+        rw [show n + (m - n) = m by omega, hp]
+        intro e; apply hne
+        cases hq : (st m).pc0 <;> rw [hq] at e <;> simp [loopClass] at e ⊢ <;> omega
       have := E.mu_drop n (m - n) this
       omega
     | _ => exact ⟨n, Nat.le_refl _, by simp [pastLoop, hp]⟩
@@ -270,7 +402,17 @@ theorem FairExec.loop_ends (E : FairExec st act) {p q D : Nat} (hsp : SpeedBound
       have : loopClass (st (n + (m - n))).pc0 ≠ loopClass (st n).pc0 := by
         rw [show n + (m - n) = m by omega, hp]
         intro e
-        cases hq : (st m).pc0 <;> rw [hq] at e hne <;> simp [loopClass, isDraining] at e hne
+        cases hq : (st m).pc0 <;> rw [hq] at e hne <;> simp [loopClass, isDraining] at e hne <;> omega
+      have := E.mu_drop n (m - n) this
+      rw [show n + (m - n) = m by omega] at this
+      obtain ⟨m', hm', hg⟩ := ih m (by omega)
+      exact ⟨m', by omega, hg⟩
+    | collecting k0 =>
+      obtain ⟨m, hm, hne⟩ := E.collecting_ends n k0 hp
+      have : loopClass (st (n + (m - n))).pc0 ≠ loopClass (st n).pc0 := by
+        rw [show n + (m - n) = m by omega, hp]
+        intro e; apply hne
+        cases hq : (st m).pc0 <;> rw [hq] at e <;> simp [loopClass] at e ⊢ <;> omega
       have := E.mu_drop n (m - n) this
       rw [show n + (m - n) = m by omega] at this
       obtain ⟨m', hm', hg⟩ := ih m (by omega)
@@ -291,6 +433,8 @@ theorem pastLoop_step {s s' : State} {a : Action} (h : step s a = some s') (hp :
     | probeExit r hq _ _ => rw [hq] at hp; cases hp
     | probeSomeF r q hq _ => rfl
     | probeDone r hq _ => rfl
+    | collectNext r k a rest hq _ _ => rw [hq] at hp; simp only [loopClass] at hp; omega
+    | collectLast r k a rest hq _ _ => rw [hq] at hp; simp only [loopClass] at hp; omega
     | recv r src a rest hq _ => rw [hq] at hp; cases hp
     | recvF r src a rest hq _ => rfl
     | sendExit r k hq _ => exact (afterExit_class _ _).1
@@ -312,6 +456,8 @@ theorem barrier_step {s s' : State} {a : Action} (hp : pastLoop s = true) (hna :
     | probeExit r hq _ _ => rw [pastLoop, hq] at hp; cases hp
     | probeSomeF r q hq _ => rw [hq] at hna; cases hna
     | probeDone r hq _ => rw [hq] at hna; cases hna
+    | collectNext r k a rest hq _ _ => rw [pastLoop, hq] at hp; cases hp
+    | collectLast r k a rest hq _ _ => rw [pastLoop, hq] at hp; cases hp
     | recv r src a rest hq _ => rw [pastLoop, hq] at hp; cases hp
     | recvF r src a rest hq _ => rw [hq] at hna; cases hna
     | sendExit r k hq hk =>
@@ -337,9 +483,10 @@ theorem FairExec.reaches_barrier (E : FairExec st act) (n1 : Nat) (hp : pastLoop
   refine E.eventually_dec (fun s => arrived0 s.pc0 = true) (fun s => ordPc s.R 0 s.pc0) (fun r => r = 0) n1
     ?_ ?_ ?_ n1 (Nat.le_refl _)
   · intro n hn hG
-    refine ⟨0, rfl, enabled0 (E.inv n) ?_ ?_⟩
+    refine ⟨0, rfl, enabled0 (E.inv n) ?_ ?_ ?_⟩
     · intro e; rw [e] at hG; exact hG rfl
     · intro e; rw [e] at hG; exact absurd rfl hG
+    · intro k e; have := hpast n hn; rw [pastLoop, e] at this; cases this
   · intro n a hn hG ha
     exact (barrier_step (hpast n hn) (hfalse hG) (E.exec.of_some ha)).1
   · intro n a hn hG ha hr ht
@@ -358,6 +505,8 @@ theorem arrived0_step {s s' : State} {a : Action} (h : step s a = some s') (hp :
     | probeExit r hq _ _ => rw [hq] at hp; cases hp
     | probeSomeF r q hq _ => rfl
     | probeDone r hq _ => rfl
+    | collectNext r k a rest hq _ _ => rw [hq] at hp; cases hp
+    | collectLast r k a rest hq _ _ => rw [hq] at hp; cases hp
     | recv r src a rest hq _ => rw [hq] at hp; cases hp
     | recvF r src a rest hq _ => rfl
     | sendExit r k hq _ => rw [hq] at hp; cases hp
